@@ -80,7 +80,12 @@ func genRegTree(r *rand.Rand) *RegTree {
 			case x < 5:
 				n.Ops = append(n.Ops, RegOp{Kind: "get", Name: target, Tolerate: tol})
 			case x < 6:
-				n.Ops = append(n.Ops, RegOp{Kind: "inC", Name: target})
+				if r.IntN(3) == 0 {
+					// the factory registers its early-reference factory once more (same product)
+					n.Ops = append(n.Ops, RegOp{Kind: "addF", Name: name})
+				} else {
+					n.Ops = append(n.Ops, RegOp{Kind: "inC", Name: target})
+				}
 			default:
 				// nested create of a name that is not on the creation stack (a factory first
 				// looks the name up and only creates what is neither cached nor in creation)
